@@ -492,7 +492,11 @@ where
 {
     if let Some(mut pool) = poolref.lock() {
         if let Some(reused) = connection.reuse() {
-            pool.push(token, reused, poolref.clone());
+            // A connection which was closed while it sat in this checkout is
+            // not offered to other checkouts or kept in the pool.
+            if connection.is_open() {
+                pool.push(token, reused, poolref.clone());
+            }
             return Pooled {
                 connection: Some(connection),
                 token: Token::zero(),
